@@ -255,7 +255,7 @@ void rd::case_expr() {
         else { if (n < MB.dim() && !risky("truncds", 8)) { if (argX.representation() == DENSE) rx = DENSE; if (argY.representation() == DENSE) ry = DENSE; }
           op = n < MB.dim() ? "copy_dim_repr_truncate" : "copy_dim_repr"; args << "#" << b << ":" << rs(argX.representation()) << rs(argY.representation()) << "," << n << "," << rs(rx) << rs(ry); tr(pre.str() + op + "(" + args.str() + ")");
           A.X = Linear_Expression(argX, n, rx); A.Y = Linear_Expression(argY, n, ry); M = MB; M.c.resize(n + 1);
-          if (n < MB.dim() && ((argX.representation() == DENSE && rx == SPARSE) || (argY.representation() == DENSE && ry == SPARSE))) poison() = "truncating-dense-to-sparse"; }
+          if (n < MB.dim() && ((argX.representation() == DENSE && rx == SPARSE) || (argY.representation() == DENSE && ry == SPARSE))) hx::count("truncating_dense_to_sparse_conversions") /* the defect this used to poison the case for is repaired in /repo */; }
         break; }
       case 33: { bool ms = coin(); op = ms ? "m_swap" : "swap"; args << "#" << b; tr(pre.str() + op + "(" + args.str() + ")"); if (ms) { A.X.m_swap(B.X); A.Y.m_swap(B.Y); } else { using std::swap; swap(A.X, B.X); swap(A.Y, B.Y); } std::swap(A.M, B.M); break; }
       case 34: { op = "set_representation"; Representation rx = rand_rep(), ry = rand_rep(); args << rs(rx) << rs(ry); tr(pre.str() + op + "(" + args.str() + ")"); A.X.set_representation(rx); A.Y.set_representation(ry); hx::count("expr.repr_flips"); break; }
